@@ -105,6 +105,15 @@ func c20One(c *Ctx, fields [][2]int, v c20variant, local map[string]int64) {
 	sel.OmitTime = v.omitTime
 	sel.TimeAlias = v.timeAlias
 	before := dumpOf(sel)
+	if mon.Hash64(text)%23 == 0 {
+		// just before, on this goroutine: the same fields in a statement a
+		// program built wrongly (its last field holds a nil reference), whose
+		// ColumnNames call does not finish - the caller recovers and goes on
+		bad := sel.Clone()
+		bad.Fields = append(bad.Fields, &influxql.Field{Expr: (*influxql.VarRef)(nil)})
+		mon.Try(func() { _ = bad.ColumnNames() })
+		local["aborted-call-just-before"]++
+	}
 	var got, got2, got3 []string
 	if p, pv, stk := mon.Try(func() {
 		got = sel.ColumnNames()
@@ -370,6 +379,62 @@ func checkC20(c *Ctx) (string, bool, []string) {
 		local["random-lists"]++
 		r.MergeCounts(local)
 	})
+	// statements that come out of wildcard expansion and are edited afterwards:
+	// the names are those of the statement as it is now (its clone, and the
+	// same statement expanded afresh and edited the same way, say the same)
+	{
+		tm := &testMapper{fields: map[string]map[string]influxql.DataType{"m": {"value1": influxql.Float, "value2": influxql.Integer, "a": influxql.Float}}, tags: map[string][]string{"m": {"host", "region"}}}
+		edits := []struct {
+			name string
+			f    func(s *influxql.SelectStatement)
+		}{
+			{"alias", func(s *influxql.SelectStatement) { s.Fields[len(s.Fields)-1].Alias = "renamed" }},
+			{"omit-time", func(s *influxql.SelectStatement) { s.OmitTime = true }},
+			{"reslice", func(s *influxql.SelectStatement) { s.Fields = s.Fields[1:] }},
+			{"time-alias", func(s *influxql.SelectStatement) { s.TimeAlias = "ts" }},
+			{"RewriteTimeFields", func(s *influxql.SelectStatement) { s.RewriteTimeFields() }},
+			{"append", func(s *influxql.SelectStatement) {
+				s.Fields = append(s.Fields, &influxql.Field{Expr: &influxql.VarRef{Val: "value1"}})
+			}},
+		}
+		for _, q := range []string{"SELECT *, a FROM m", "SELECT time AS t0, * FROM m", "SELECT mean(*), a AS value1 FROM m", "SELECT /value/, host FROM m GROUP BY *", "SELECT a, a FROM m"} {
+			for _, ed := range edits {
+				mk := func() *influxql.SelectStatement {
+					st, err := influxql.ParseStatement(q)
+					if err != nil {
+						return nil
+					}
+					o, err := st.(*influxql.SelectStatement).RewriteFields(tm)
+					if err != nil {
+						return nil
+					}
+					return o
+				}
+				s1, s2 := mk(), mk()
+				if s1 == nil || s2 == nil {
+					continue
+				}
+				var first, after, viaClone, fresh []string
+				if p, pv, stk := mon.Try(func() {
+					first = s1.ColumnNames()
+					ed.f(s1)
+					after = s1.ColumnNames()
+					viaClone = s1.Clone().ColumnNames()
+					ed.f(s2) // never asked before the edit
+					fresh = s2.ColumnNames()
+				}); p {
+					r.Violation("panic-in-ColumnNames", map[string]interface{}{"input": q, "why": fmt.Sprint(pv), "stack": stk})
+					continue
+				}
+				r.Eval(1)
+				if fmt.Sprintf("%q", after) != fmt.Sprintf("%q", viaClone) || fmt.Sprintf("%q", after) != fmt.Sprintf("%q", fresh) {
+					r.Violation("column-names", map[string]interface{}{"input": q, "why": fmt.Sprintf("expanded by RewriteFields (names %q), then edited (%s): the statement answers %q, its clone %q, the same statement expanded and edited without having been asked before %q", first, ed.name, after, viaClone, fresh)})
+					continue
+				}
+				r.Count("expanded-then-edited", 1)
+			}
+		}
+	}
 	// the time alias obtained the way a user gets it: SELECT time AS x + RewriteTimeFields
 	for _, q := range []string{"SELECT time AS ts, a, a FROM m", "SELECT a, time AS ts, mean(a) AS a FROM m"} {
 		st, err := influxql.ParseStatement(q)
